@@ -158,9 +158,9 @@ class Ridge2FoldCV(BaseEstimator, MultiOutputMixin, RegressorMixin):
             )
         if self.alpha_type not in ["absolute", "relative"]:
             raise ValueError(f"alpha type {self.alpha_type} is not known.")
-        if self.alpha_type == "relative" and (
-            np.any(self.alphas < 0) or np.any(self.alphas >= 1)
-        ):
+        # the grid may have been replaced by a plain sequence through set_params
+        alphas = np.asarray(self.alphas)
+        if self.alpha_type == "relative" and (np.any(alphas < 0) or np.any(alphas >= 1)):
             raise ValueError(
                 "relative alphas type used, but the alphas are not within the range "
                 "[0,1)"
